@@ -137,3 +137,12 @@ Proof.
   revert H0. generalize (copy_all aliases []). induction dyn as [|t dyn IH]; intros e Hin; [exact Hin|].
   cbn [fold_left]. apply IH. apply copy_props_incl. exact Hin.
 Qed.
+
+Lemma node_mode_iff typed form : to_esm_node_mode typed form = true <-> typed = true.
+Proof. unfold to_esm_node_mode. tauto. Qed.
+
+Lemma typed_default_native form marker : to_esm_default (to_esm_node_mode true form) marker = native_default.
+Proof. reflexivity. Qed.
+
+Lemma untyped_marker_default form : to_esm_default (to_esm_node_mode false form) true <> native_default.
+Proof. cbn. discriminate. Qed.
